@@ -21,6 +21,11 @@ PROP = dict(
           "(dfs_pb2) rapidcheck-generated scenarios each enumerated completely up to 2 preemptions; (sampled) rapidcheck-generated scenarios of "
           "3 threads x <= 4 ops with generated choice vectors; (stress) 4-16 threads x 10^5..10^7 random handle operations / AtomicCount ++/-- / "
           "Atomic<int|Long|double> ++ -- ++(int) --(int) += -= under ThreadSanitizer and again under AddressSanitizer. "
+          "Added in seeding rounds 4-6: (graph) single-thread model-based histories of EVERY handle operation of the five kinds on object DAGs in which objects own "
+          "handles to other objects (copy, assign, self-assign, converting assign Shared<Base> = Shared<Item>, raw-pointer assign, empty / null-wrapping handles, "
+          "as<>(), right-hand side owned by the object being released), oracle = reachability in a reference graph; stress kinds for the remaining Atomic<T> "
+          "forms (*= /= exact factors, values returned by ++x / x++ as tickets, Atomic<Array> << and ->insert, members of an Atomic<struct> through -> and locked()) "
+          "and Atomic<Array|Shared|Map> copied out through the implicit conversion and ~a while writers replace the handle. "
           "Oracles: each payload destroyed exactly once (live-instance count returns to its start value, ASan double free / use after free, canary "
           "re-read through every live handle after every op), every AtomicCount return value equals the value implied by the executed order of "
           "atomic steps, final counter == initial + sum of operations, no race report. "
